@@ -23,6 +23,8 @@ from .c05 import compositions
 
 PID = "C04"
 LEVEL = "exploration"
+# a few fixed documents are encoded before and after every shard's workload (harness.Sentinels)
+SENTINELS = True
 RULE = ("tables whose rows have an unambiguous height (the sizing cell's measured width lies in [(k-1)+0.2, k-0.2] "
         "column widths, k in 1..3; all other cells one short line), font 1 / 9pt; exhaustive part: every height vector "
         "in {1,2,3}^n (n<=5 quick, n<=7 thorough) x nrow 2..12 x 4 reservation sets under plain pagination, and every "
